@@ -14,6 +14,7 @@ import ALV.Lemmas.C20Call
 import ALV.Lemmas.C20Causal
 import ALV.Lemmas.C20Env
 import ALV.Gen.C20Defaults
+import ALV.Lemmas.C20Src
 import ALV.Common.Audit
 
 namespace ALV.Props.C20
@@ -560,6 +561,72 @@ theorem rat_spec_recursions (size lag : Nat) (hs : 0 < size) (zero h fs md step 
    zcrossSpecRec_eq_spec h fs xs, unwrapSpecRec_eq_spec R.fl md step xs⟩
 
 end rat
+
+/-! ### the model is what the source says NOW (translator `harness/props/c20_tr.py` → `ALV.Gen.C20`)
+
+`ALV.Gen.C20.<f>` is rewritten from the bodies of the Python functions before every build.  Each theorem says that
+the regenerated definition IS the hand-written model function all the theorems above are about; an edit of the
+source that changes the meaning of a translated function breaks it (or is a `TranslationError`). -/
+section source
+variable {α : Type}
+
+/-- `lazy_analysis.clip` (the four `None` cases, the `high < low` error, the three comparisons) -/
+theorem src_clip_is_model [LT α] [DecidableLT α] :
+    ALV.Gen.C20.clip (α := α) = ALV.C20.clip := by
+  funext low high xs; exact Src.clip_eq low high xs
+
+/-- `lazy_analysis.zcross` (both loops, the `first_sign == 0` switch, the hysteresis tests, the sign rule) -/
+theorem src_zcross_is_model [Mul α] [Neg α] [OfNat α 0] [OfNat α 1] [LT α] [DecidableLT α] [DecidableEq α] :
+    ALV.Gen.C20.zcross (α := α) = ALV.C20.zcross := by
+  funext h fs xs; exact Src.zcross_eq h fs xs
+
+/-- `lazy_analysis.unwrap` (`next` / empty input, the threshold test, `min(d % step, d % -step, key=abs)`) -/
+theorem src_unwrap_is_model [Add α] [Mul α] [Sub α] [Neg α] [Div α] [OfNat α 0] [LT α] [DecidableLT α] :
+    ALV.Gen.C20.unwrap (α := α) = ALV.C20.unwrap := by
+  funext fl md step xs; exact Src.unwrap_eq fl md step xs
+
+/-- `lazy_itertools.accumulate.func` -/
+theorem src_accumulate_func_is_model [Add α] [Mul α] [Sub α] [Neg α] [OfNat α 0] [OfNat α 1] :
+    ALV.Gen.C20.accumulate_func (α := α) = ALV.C20.accumulateFunc := by
+  funext xs; exact Src.accumulate_func_eq xs
+
+/-- `lazy_analysis.maverage.deque` (closure: `size_inv`, the initial deque, the five statements of the loop) -/
+theorem src_maverage_deque_is_model [Add α] [Mul α] [Sub α] [Neg α] [Div α] [OfNat α 0] [OfNat α 1] [NatCast α] :
+    ALV.Gen.C20.maverage_deque (α := α) = ALV.C20.maverageDeque := by
+  funext size zero xs; exact Src.maverage_deque_eq size zero xs
+
+/-- `lazy_analysis.amdf` (`maverage(size)(abs(filt(sig, zero=zero)), zero=zero)`, `filt = (1 - z ** -lag)`;
+`maverage(size)` is the regenerated `maverage.deque`) -/
+theorem src_amdf_is_model [Add α] [Mul α] [Sub α] [Neg α] [Div α] [OfNat α 0] [OfNat α 1] [NatCast α]
+    [LT α] [DecidableLT α] :
+    ALV.Gen.C20.amdf (α := α) = ALV.C20.amdf := by
+  funext lag size zero xs; exact Src.amdf_eq lag size zero xs
+
+/-- `lazy_analysis.envelope.abs` / `.squared` (`lowpass(cutoff)(abs(thub(sig, 1)))`, `… ** 2`; `b a` = the
+coefficients of `lowpass(cutoff)`) -/
+theorem src_envelope_is_model [Add α] [Mul α] [Sub α] [Neg α] [Div α] [OfNat α 0] [OfNat α 1] [NatCast α]
+    [LT α] [DecidableLT α] :
+    ALV.Gen.C20.envelope_abs (α := α) = ALV.C20.envelopeAbs ∧
+    ALV.Gen.C20.envelope_squared (α := α) = ALV.C20.envelopeSquared :=
+  ⟨rfl, rfl⟩
+
+/-- what the tie buys: a clause of the property, stated about the REGENERATED definitions (here: the
+closed specifications of `clip`, `zcross`, `unwrap`, `maverage.deque`, `accumulate.func`, `amdf` at `Rat`, the
+type the driver runs) -/
+theorem src_tools_eq_spec (low high : Option Rat) (h fs md step zero : Rat) (h0 : 0 ≤ h) (hs : 0 < step)
+    (size lag : Nat) (hz : 0 < size) (xs : List Rat) :
+    ALV.Gen.C20.clip low high xs = clipSpec low high xs ∧
+    ALV.Gen.C20.zcross h fs xs = zcrossSpec h fs xs ∧
+    ALV.Gen.C20.unwrap R.fl md step xs = unwrapSpec R.fl md step xs ∧
+    ALV.Gen.C20.maverage_deque size zero xs = mavgSpec size zero xs ∧
+    ALV.Gen.C20.accumulate_func xs = accSpec xs ∧
+    ALV.Gen.C20.amdf lag size zero xs = amdfSpec lag size zero xs := by
+  rw [src_clip_is_model, src_zcross_is_model, src_unwrap_is_model, src_maverage_deque_is_model,
+    src_accumulate_func_is_model, src_amdf_is_model]
+  exact ⟨rat_clip low high xs, rat_zcross h fs h0 xs, (rat_unwrap md step hs xs).1, (rat_maverage size hz zero xs).1,
+    (rat_accumulate xs).1, rat_amdf lag size hz zero xs⟩
+
+end source
 
 /-! ### the call layer: omitted parameters, `None`, strategy defaults (`ALV.Model.C20Call`)
 
